@@ -243,15 +243,8 @@ Definition parse_ping (fr : list frame) : option xcmd :=
   | _ => None
   end.
 
-(** CommandParser::parse: the command name is extract_string(..).to_uppercase() *)
-Definition parse (fr : list frame) : option xcmd :=
-  match fr with
-  | [] => None
-  | f0 :: _ =>
-    match x_str f0 with
-    | None => None
-    | Some nm =>
-      let name := upper nm in
+(** CommandParser::parse: the command name is extract_string(..).to_uppercase(); the match on it *)
+Definition parse_named (name : bytes) (fr : list frame) : option xcmd :=
       if beq name (bs "SET") then parse_set fr
       else if beq name (bs "GET") then parse_k XGet fr
       else if beq name (bs "MGET") then parse_ks XMGet fr
@@ -332,7 +325,15 @@ Definition parse (fr : list frame) : option xcmd :=
       else if beq name (bs "DBSIZE") then Some XDbSize
       else if beq name (bs "KEYS") then
         match fr with [_; p] => option_map XKeys (x_bytes p) | _ => None end
-      else None                                                       (* UnknownCommand *)
+      else None.                                                      (* UnknownCommand *)
+
+Definition parse (fr : list frame) : option xcmd :=
+  match fr with
+  | [] => None
+  | f0 :: _ =>
+    match x_str f0 with
+    | None => None
+    | Some nm => parse_named (upper nm) fr
     end
   end.
 
